@@ -147,6 +147,79 @@ def record_cseg_decode(buf, C, shape_xyz, block, dtype):
             "dec": dec_record(st, v)}
 
 
+def record_cseg_dataset(scales, dtype, C, order):
+    """C02 cases from a multi-step history on ONE PrecomputedIO object (one
+    encoder per scale lives in it): scales = [(key, size_xyz, chunk_xyz, block,
+    {coords: arr})]; every chunk is written through write_chunk, then every
+    chunk is read through read_chunk in `order`; the arrays that were RETURNED
+    are kept and only recorded after the last call (what a caller that holds
+    them sees).  The stored bytes are judged under the block size that the info
+    announces for the scale."""
+    from neuroglancer_scripts import accessor as acc_mod
+    from neuroglancer_scripts import precomputed_io
+
+    class Mem(acc_mod.Accessor):
+        can_read = can_write = True
+
+        def __init__(self):
+            self.files, self.chunks = {}, {}
+
+        def file_exists(self, rel):
+            return rel in self.files
+
+        def fetch_file(self, rel):
+            if rel not in self.files:
+                raise acc_mod.DataAccessError("no " + rel)
+            return self.files[rel]
+
+        def store_file(self, rel, buf, mime_type="application/octet-stream", overwrite=False):
+            self.files[rel] = bytes(buf)
+
+        def fetch_chunk(self, key, cc):
+            if (key, tuple(cc)) not in self.chunks:
+                raise acc_mod.DataAccessError("no chunk")
+            return self.chunks[(key, tuple(cc))]
+
+        def store_chunk(self, buf, key, cc, mime_type="application/octet-stream", overwrite=False):
+            self.chunks[(key, tuple(cc))] = bytes(buf)
+
+    info = {"type": "segmentation", "data_type": str(np.dtype(dtype).name), "num_channels": int(C),
+            "scales": [{"key": key, "size": list(size), "chunk_sizes": [list(chunk)],
+                        "resolution": [float(2 ** k)] * 3, "voxel_offset": [0, 0, 0],
+                        "encoding": "compressed_segmentation",
+                        "compressed_segmentation_block_size": list(block)}
+                       for k, (key, size, chunk, block, _) in enumerate(scales)]}
+    mem = Mem()
+    st0, pio = with_alarm(lambda: precomputed_io.get_IO_for_new_dataset(info, mem))
+    cases = []
+    if st0 != "ok":
+        raise RuntimeError("harness: the dataset could not be created: %r" % (pio,))
+    wrote = {}
+    for key, size, chunk, block, arrs in scales:
+        for cc, arr in arrs.items():
+            wrote[(key, cc)] = with_alarm(lambda: pio.write_chunk(arr, key, cc))
+    got = {}
+    for key, cc in order:
+        got[(key, cc)] = with_alarm(lambda: pio.read_chunk(key, cc))
+    for key, size, chunk, block, arrs in scales:
+        for cc, arr in arrs.items():
+            X, Y, Z = cc[1] - cc[0], cc[3] - cc[2], cc[5] - cc[4]
+            case = {"mode": "C02", "cfg": cseg_cfg(C, (X, Y, Z), block, dtype),
+                    "dtype": str(np.dtype(dtype).name), "arr": arr_halves(arr)}
+            st, v = wrote[(key, cc)]
+            if st != "ok" or (key, tuple(cc)) not in mem.chunks:
+                case["enc"] = {"st": "exc" if st != "hang" else "hang",
+                               "cls": exc_class(v) if st == "exc" else ("hang" if st == "hang" else "NotStored"),
+                               "n": 0, "h": [], "msg": clean_msg(v) if st == "exc" else ""}
+                case["dec"] = {"st": "skip", "cls": "", "shape": [], "dtype": "", "a": []}
+            else:
+                case["enc"] = dict(st="ok", cls="", **buf_halves(mem.chunks[(key, tuple(cc))]))
+                st2, v2 = got[(key, cc)]
+                case["dec"] = dec_record(st2, v2)      # late: after every other call
+            cases.append((arr, list(block), case))
+    return cases
+
+
 # ------------------------------------------------------------------------- raw
 def record_raw_decode(buf, C, shape_xyz, dtype):
     from neuroglancer_scripts import chunk_encoding as ce
